@@ -175,6 +175,44 @@ func Run(r *core.Run) {
 			}
 		}
 	}
+	// several keys in one patch: every ordered pair of representative keys (valid and invalid, with and without purposes):
+	// the verdict on a key must not depend on its neighbours
+	{
+		reps := []M{
+			key("p1", "JsonWebKey2020", "jwk", []any{"authentication"}),
+			key("p2", "JsonWebKey2020", "jwk", nil),
+			key("p3", "X25519KeyAgreementKey2019", "b58", []any{"keyAgreement"}),
+			key("p4", "X25519KeyAgreementKey2019", "b58", nil),
+			key("p5", "Ed25519VerificationKey2018", "b58", nil),
+			key("p6", "Ed25519VerificationKey2018", "jwk", []any{"assertionMethod", "capabilityInvocation"}),
+			key("p7", "Ed25519VerificationKey2020", "b58", []any{"keyAgreement"}),  // invalid: not an agreement type
+			key("p8", "X25519KeyAgreementKey2019", "b58", []any{"authentication"}), // invalid: not a verification type
+			key("p9", "EcdsaSecp256k1VerificationKey2019", "jwk", []any{"keyAgreement", "authentication"}),
+			key("pa", "Bls12381G2Key2020", "b58", nil),
+			key("pb", "JsonWebKey2020", "b58", []any{"authentication"}), // invalid: JWK required
+			key("pc", "UnknownType", "jwk", nil),                        // invalid
+		}
+		for i, a := range reps {
+			for j, b := range reps {
+				if i != j {
+					addKeys(fmt.Sprintf("pair/%s+%s", a["id"], b["id"]), []any{a, b}, nil)
+					if (i+j)%3 == 0 {
+						add(fmt.Sprintf("replace/pair/%s+%s", a["id"], b["id"]), M{"action": "replace", "document": M{"publicKeys": []any{a, b}}}, nil)
+					}
+				}
+			}
+		}
+		addKeys("triple/p3+p2+p5", []any{reps[2], reps[1], reps[4]}, &yes)
+		addKeys("triple/p1+p4+p3", []any{reps[0], reps[3], reps[2]}, &yes)
+		svcs := []M{svc("q1", "T", "https://a.example/"), svc("q2", "T", []any{"https://a.example/"}), svc("q3", "T", ""), svc("q4", "T", M{"o": 1.0}), svc("q5", strings.Repeat("t", 31), "https://a.example/")}
+		for i, a := range svcs {
+			for j, b := range svcs {
+				if i != j {
+					addSvcs(fmt.Sprintf("pair/%s+%s", a["id"], b["id"]), []any{a, b}, nil)
+				}
+			}
+		}
+	}
 	// services
 	addSvcs("valid-string-endpoint", []any{svc("svc-1", "LinkedDomains", "https://ok.example/x")}, &yes)
 	addSvcs("valid-did-endpoint", []any{svc("svc-1", "T", "did:example:123")}, &yes)
